@@ -1,5 +1,6 @@
 import L21.Props.C14
 import L21.Props.C14Conv
+import L21.Props.C14Idem
 import L21.Props.C14Lib
 import L21.Props.C14RT
 import L21.Props.C17Sorted
@@ -23,3 +24,6 @@ import L21.Props.C17Sorted
 #print axioms L21.RawProto.c14_converse_no_exporter
 #print axioms L21.RawProto.c14_reexport_keeps_cell_order
 #print axioms L21.RawProto.c14_message_roundtrip_layouts
+#print axioms L21.RawProto.groupElems_canon
+#print axioms L21.RawProto.c14_regroup_idempotent
+#print axioms L21.RawProto.c14_export_fixed_point
